@@ -258,7 +258,7 @@ def pair_index(chk, facts):
         n += 1
         chk.ob(rule, short(name), ok, "fields written on success paths: %s; required together: %s" % (sorted(touched_on_ok), sorted(need)),
                where=f.where(), fn=name, key="%s:%s" % (rule, name), sample={"fn": short(name), "written": sorted(touched_on_ok)})
-    chk.floor(rule, "operations", n, 12)
+    chk.floor(rule, "operations", n, 13)
     index_monotone(chk, facts)
 
 
@@ -467,7 +467,7 @@ def equality(chk, facts):
         chk.ob(rule, adt.split("::")[-1], not missing,
                "PartialEq of %s compares fields %s%s" % (adt.split("::")[-1], sorted(read), "" if not missing else "; ignores %s — policies/templates differing only there compare equal, so merge misses the id collision" % missing),
                where=f.where(), fn=f.name, key="%s:%s:%s" % (rule, adt, ",".join(missing)), sample={"type": adt.split("::")[-1], "compared": sorted(read), "all": fields})
-    chk.floor(rule, "types", n, 3)
+    chk.floor(rule, "types", n, 4)
 
 
 def link_fields(chk, facts):
